@@ -256,6 +256,15 @@ def pong(R):
     st = [s for s in own_nodes(f.node) if isinstance(s, ast.Assign) and U(s.targets[0]) == 'self._last_pong']
     R.ob('C15.pong', '_on_pong records the current session time', len(st) == 1 and U(st[0].value) == 'self.session_time',
          '_last_pong = %s' % [U(s.value) for s in st], func=f, node=(st[0] if st else None))
+    # ... for every Pong: RFC 6455 lets a server send unsolicited Pongs as a heartbeat, and the ping timeout is about the most
+    # recent Pong whoever asked for it - a path through _on_pong that leaves _last_pong alone makes Unresponsive fire although
+    # a Pong arrived within the timeout
+    gp_ = R.cfg(S + '._on_pong')
+    stn = [n for n in gp_.live_nodes() if n.kind == 'stmt' and isinstance(n.ast, ast.Assign) and U(n.ast.targets[0]) == 'self._last_pong']
+    R.ob('C15.pong', '_on_pong records every Pong', bool(stn) and all_paths_pass(gp_, [gp_.entry], stn, [gp_.exit], skip_edge=nx),
+         '_on_pong can return without storing _last_pong (a Pong taken for "unsolicited" is not counted): Unresponsive fires '
+         'although a Pong was received within the ping timeout', func=f, node=(st[0] if st else None),
+         construct='_on_pong path without _last_pong store')
     q2 = S + '._on_event'
     g2 = R.cfg(q2)
     rd2 = ReachingDefs(g2)
